@@ -1,0 +1,1341 @@
+//! Verification harness for property C05 (test-only; see /verif): call-path independence of block
+//! execution.
+//!
+//! Runs N independent replicas of the scripted sequencer harness (`app::verif::Harness`, each with
+//! its own `App` on its own `TempStorage`), feeds every ordinary harness line (genesis, history
+//! blocks, tx definitions, ...) to all of them, and then delivers named blocks to single replicas
+//! through explicit ABCI calls (`prepare_proposal`, `process_proposal`, `finalize_block`, `commit`,
+//! restart = a fresh `App` on the same storage).
+//!
+//! Run with:
+//! `cargo test --offline -p astria-sequencer --features verif --lib app::verif_c05::drive -- --exact`
+//!
+//! Additional ops (everything else is delegated to `Harness::run_line` of every replica; the output
+//! of replica 0 is printed, followed by `replica-diverge <i>` for every replica whose output for
+//! that line differs):
+//!
+//! ```text
+//! inst <n>                          number of replicas of the following `genesis` (default 1)
+//! oraclepair <BASE/QUOTE> <dec>     (all replicas) adds a market + currency pair directly to state
+//! ec <name> round=<r> votes=<v>/<v>/...     defines an extended commit; <v> = aK:<flag>:<prices>[:<sig>]
+//!                                   flag c|n|a (commit, nil, absent); prices `-` or id=price,id=price;
+//!                                   sig ok (default) | bad (signature over a different round) | none
+//! prep <i> <blk> [ec=<name>] [prop=aK] [round=<r>] [tplus=<s>] [maxb=<n>] [keep=1] txs=<id,...|->
+//!                                   replica i: mempool := txs (those passing CheckTx-style
+//!                                   construction against the committed state; with keep=1 the txs
+//!                                   admitted at earlier heights stay), PrepareProposal; the
+//!                                   response defines block <blk> (or is compared with it: match=0|1)
+//! hand <i> <blk> [ec=..] [ecmode=honest|raw] [prop=..] [round=..] [tplus=..] [bad=commit|item] txs=..
+//!                                   builds block <blk> by hand on (scratch) replica i: given order,
+//!                                   failing txs included, commitments over a dry run
+//! proc <i> <blk>                    ProcessProposal of block <blk> on replica i
+//! fin <i> <blk>                     FinalizeBlock
+//! commit <i>                        Commit
+//! restart <i>                       fresh `App` (empty mempool, execution state unset) on the same storage
+//! idump <i>                         `dump` of replica i plus the oracle store
+//! mp <i> txs=<id,...>               CheckTx of the txs on replica i now; they stay in its mempool
+//! ```
+#![allow(
+    clippy::pedantic,
+    clippy::arithmetic_side_effects,
+    clippy::too_many_lines,
+    dead_code
+)]
+
+use std::{
+    collections::HashMap,
+    panic::AssertUnwindSafe,
+    sync::Arc,
+    time::Duration,
+};
+
+use astria_core::{
+    generated::price_feed::abci::v2::OracleVoteExtension as RawOracleVoteExtension,
+    oracles::price_feed::{
+        market_map::v2::{
+            Market,
+            MarketMap,
+            Ticker,
+        },
+        oracle::v2::CurrencyPairState,
+        types::v2::{
+            CurrencyPair,
+            CurrencyPairNonce,
+        },
+    },
+    protocol::price_feed::v1::ExtendedCommitInfoWithCurrencyPairMapping,
+    sequencerblock::v1::DataItem,
+    upgrades::v1::Change,
+    Protobuf as _,
+};
+use bytes::Bytes;
+use cnidarium::StateDelta;
+use futures::{
+    FutureExt as _,
+    StreamExt as _,
+};
+use prost::Message as _;
+use sha2::{
+    Digest as _,
+    Sha256,
+};
+use tendermint::{
+    abci::{
+        self,
+        types::{
+            BlockSignatureInfo,
+            CommitInfo,
+            ExtendedCommitInfo,
+            ExtendedVoteInfo,
+            Validator,
+            VoteInfo,
+        },
+    },
+    block::{
+        BlockIdFlag,
+        Height,
+    },
+    Hash,
+    Time,
+};
+use tendermint_proto::types::CanonicalVoteExtension;
+
+use super::{
+    verif::{
+        block_time,
+        debug_enabled,
+        error_chain,
+        hex16,
+        report_chain,
+        show_validator_updates,
+        Chain,
+        Harness,
+        KeyValues,
+        CHAIN_ID,
+    },
+    vote_extension::{
+        Handler as VeHandler,
+        ProposalHandler,
+    },
+    App,
+    StateReadExt as _,
+};
+use crate::{
+    accounts::StateReadExt as _,
+    authority::StateReadExt as _,
+    checked_transaction::CheckedTransaction,
+    mempool::{
+        Mempool,
+        RemovalReason,
+    },
+    oracles::price_feed::{
+        market_map::state_ext::{
+            StateReadExt as _,
+            StateWriteExt as _,
+        },
+        oracle::state_ext::{
+            StateReadExt as _,
+            StateWriteExt as _,
+        },
+    },
+    proposal::commitment::generate_rollup_datas_commitment,
+};
+
+type PResult<T> = Result<T, String>;
+
+/// Error classes of the ABCI calls (first match wins, on the lower-cased `{:#}` chain).
+const CLASSES: &[(&str, &str)] = &[
+    ("currency pair state not found", "putprice"),
+    ("failed to put price", "putprice"),
+    ("failed to apply prices", "prices"),
+    ("failed to parse data items", "parse"),
+    ("failed to validate extended commit info", "extcommit"),
+    ("last commit is empty", "nolastcommit"),
+    ("failed to construct checked transactions", "construct"),
+    ("failed to execute transactions in finalize block", "construct"),
+    ("incorrect transaction group ordering", "group"),
+    ("max block sequenced data limit", "seqlimit"),
+    ("transaction failed to execute", "txfail"),
+    ("commitment does not match", "commitment"),
+    ("upgrade change hashes", "upgradehash"),
+    ("executed block state", "execstate"),
+    ("execution state already set", "execstate"),
+    ("prepared proposal fingerprint", "execstate"),
+    ("failed to convert block info and data to sequencerblock", "seqblock"),
+    ("block hash is empty", "nohash"),
+];
+
+fn call_class(context: &str, text: &str) -> &'static str {
+    if debug_enabled() {
+        eprintln!("[verif_c05] {context}: {text}");
+    }
+    let lower = text.to_lowercase();
+    for (needle, class) in CLASSES {
+        if lower.contains(needle) {
+            return class;
+        }
+    }
+    "other"
+}
+
+#[derive(Clone)]
+struct VoteSpec {
+    account: usize,
+    flag: char,
+    prices: Vec<(u64, i128)>,
+    sig: String,
+}
+
+#[derive(Clone)]
+struct EcSpec {
+    round: u16,
+    votes: Vec<VoteSpec>,
+}
+
+#[derive(Clone)]
+struct Block {
+    height: u64,
+    time: Time,
+    proposer: tendermint::account::Id,
+    txs: Vec<Bytes>,
+    last_commit: CommitInfo,
+    hash: Hash,
+}
+
+struct BlockMeta {
+    time: Time,
+    proposer: tendermint::account::Id,
+    round: u16,
+}
+
+struct Driver {
+    out: String,
+    inst: usize,
+    replicas: Vec<Harness>,
+    ecs: HashMap<String, EcSpec>,
+    blocks: HashMap<String, Block>,
+    /// txs currently held by each replica's mempool (inserted by `prep`)
+    mempools: Vec<Vec<Arc<CheckedTransaction>>>,
+}
+
+fn project(ec: &ExtendedCommitInfo) -> CommitInfo {
+    CommitInfo {
+        round: ec.round,
+        votes: ec
+            .votes
+            .iter()
+            .map(|vote| VoteInfo {
+                validator: vote.validator.clone(),
+                sig_info: vote.sig_info,
+            })
+            .collect(),
+    }
+}
+
+fn block_hash_of(
+    height: u64,
+    time: Time,
+    proposer: &tendermint::account::Id,
+    last_commit: &CommitInfo,
+    txs: &[Bytes],
+) -> Hash {
+    let mut hasher = Sha256::new();
+    hasher.update(b"c05-block");
+    hasher.update(height.to_le_bytes());
+    hasher.update(time.unix_timestamp_nanos().to_le_bytes());
+    hasher.update(proposer.as_bytes());
+    hasher.update(last_commit.round.value().to_le_bytes());
+    hasher.update((last_commit.votes.len() as u64).to_le_bytes());
+    for vote in &last_commit.votes {
+        hasher.update(vote.validator.address);
+        hasher.update(vote.validator.power.value().to_le_bytes());
+        hasher.update(format!("{:?}", vote.sig_info).as_bytes());
+    }
+    hasher.update((txs.len() as u64).to_le_bytes());
+    for tx in txs {
+        hasher.update((tx.len() as u64).to_le_bytes());
+        hasher.update(tx);
+    }
+    Hash::Sha256(hasher.finalize().into())
+}
+
+impl Driver {
+    fn new() -> Self {
+        Self {
+            out: String::new(),
+            inst: 1,
+            replicas: vec![Harness::new()],
+            ecs: HashMap::new(),
+            blocks: HashMap::new(),
+            mempools: vec![vec![]],
+        }
+    }
+
+    fn emit(&mut self, line: impl AsRef<str>) {
+        self.out.push_str(line.as_ref());
+        self.out.push('\n');
+    }
+
+    async fn run_line(&mut self, line: &str) {
+        let tokens: Vec<&str> = line.split_whitespace().collect();
+        let Some((&op, args)) = tokens.split_first() else {
+            return;
+        };
+        if op.starts_with('#') {
+            return;
+        }
+        match op {
+            "inst" | "oraclepair" | "ec" | "prep" | "hand" | "proc" | "fin" | "commit" | "restart"
+            | "idump" | "mp" => {
+                let mark = self.out.len();
+                let result = AssertUnwindSafe(self.run_own(op, args)).catch_unwind().await;
+                let subject = match op {
+                    "prep" | "hand" | "proc" | "fin" => args
+                        .iter()
+                        .take(2)
+                        .map(|token| format!(" {token}"))
+                        .collect::<String>(),
+                    "commit" | "restart" | "idump" | "mp" => args
+                        .iter()
+                        .take(1)
+                        .map(|token| format!(" {token}"))
+                        .collect::<String>(),
+                    _ => String::new(),
+                };
+                match result {
+                    Ok(Ok(())) => {}
+                    Ok(Err(message)) => {
+                        if debug_enabled() {
+                            eprintln!("[verif_c05] parse error in `{line}`: {message}");
+                        }
+                        self.out.truncate(mark);
+                        self.emit(format!("{op}{subject} parseerr"));
+                    }
+                    Err(_) => {
+                        self.out.truncate(mark);
+                        self.emit(format!("{op}{subject} panic"));
+                    }
+                }
+            }
+            _ => self.replicate(op, line).await,
+        }
+    }
+
+    /// Runs an ordinary harness line on every replica.
+    async fn replicate(&mut self, op: &str, line: &str) {
+        if op == "case" {
+            self.ecs.clear();
+            self.blocks.clear();
+            for mempool in &mut self.mempools {
+                mempool.clear();
+            }
+        }
+        let mut outputs = Vec::with_capacity(self.replicas.len());
+        for replica in &mut self.replicas {
+            let mark = replica.out.len();
+            replica.run_line(line).await;
+            outputs.push(replica.out[mark..].to_string());
+            replica.out.clear();
+        }
+        let first = outputs[0].clone();
+        self.out.push_str(&first);
+        for (index, output) in outputs.iter().enumerate().skip(1) {
+            if *output != first {
+                if debug_enabled() {
+                    eprintln!("[verif_c05] replica {index} diverges on `{line}`:\n{output}");
+                }
+                self.emit(format!("replica-diverge {index}"));
+            }
+        }
+    }
+
+    fn replica(&mut self, token: &str) -> PResult<usize> {
+        let index: usize = token
+            .parse()
+            .map_err(|_| format!("bad replica index `{token}`"))?;
+        if index >= self.replicas.len() {
+            return Err(format!("replica {index} out of range"));
+        }
+        if self.replicas[index].chain.is_none() {
+            return Err(format!("replica {index} has no chain"));
+        }
+        Ok(index)
+    }
+
+    async fn run_own(&mut self, op: &str, args: &[&str]) -> PResult<()> {
+        match op {
+            "inst" => {
+                let [count] = args else {
+                    return Err("usage: inst <n>".to_string());
+                };
+                let count: usize = count.parse().map_err(|_| "bad count".to_string())?;
+                if count == 0 || count > 32 {
+                    return Err("replica count out of range".to_string());
+                }
+                // Tx definitions survive `case` in the harness; keep that behaviour by only adding
+                // or dropping replicas at the end (new replicas start without tx definitions, so
+                // scripts define their txs after `inst`).
+                while self.replicas.len() > count {
+                    self.replicas.pop();
+                    self.mempools.pop();
+                }
+                while self.replicas.len() < count {
+                    self.replicas.push(Harness::new());
+                    self.mempools.push(vec![]);
+                }
+                self.inst = count;
+                self.emit(format!("inst {count}"));
+                Ok(())
+            }
+            "oraclepair" => self.op_oraclepair(args).await,
+            "ec" => self.op_ec(args),
+            "prep" => self.op_prep(args).await,
+            "hand" => self.op_hand(args).await,
+            "proc" => self.op_proc(args).await,
+            "fin" => self.op_fin(args).await,
+            "commit" => self.op_commit(args).await,
+            "restart" => self.op_restart(args).await,
+            "idump" => self.op_idump(args).await,
+            "mp" => self.op_mp(args).await,
+            other => Err(format!("unknown op `{other}`")),
+        }
+    }
+
+    async fn op_oraclepair(&mut self, args: &[&str]) -> PResult<()> {
+        let [pair, decimals] = args else {
+            return Err("usage: oraclepair <BASE/QUOTE> <decimals>".to_string());
+        };
+        let pair: CurrencyPair = pair.parse().map_err(|_| format!("bad pair `{pair}`"))?;
+        let decimals: u8 = decimals.parse().map_err(|_| "bad decimals".to_string())?;
+        for replica in &mut self.replicas {
+            let chain = replica
+                .chain
+                .as_mut()
+                .ok_or_else(|| "no chain".to_string())?;
+            chain.reset_round();
+            let state = chain.app.state();
+            let mut market_map = state
+                .get_market_map()
+                .await
+                .map_err(|e| report_chain(&e))?
+                .unwrap_or(MarketMap {
+                    markets: indexmap::IndexMap::new(),
+                });
+            market_map.markets.insert(
+                pair.to_string(),
+                Market {
+                    ticker: Ticker {
+                        currency_pair: pair.clone(),
+                        decimals,
+                        min_provider_count: 0,
+                        enabled: true,
+                        metadata_json: String::new(),
+                    },
+                    provider_configs: Vec::new(),
+                },
+            );
+            let next_id = state
+                .get_next_currency_pair_id()
+                .await
+                .map_err(|e| report_chain(&e))?;
+            let count = state
+                .get_num_currency_pairs()
+                .await
+                .map_err(|e| report_chain(&e))?;
+            let mut delta = chain.app.new_state_delta();
+            delta
+                .put_market_map(market_map)
+                .map_err(|e| report_chain(&e))?;
+            delta
+                .put_currency_pair_state(
+                    pair.clone(),
+                    CurrencyPairState {
+                        price: None,
+                        nonce: CurrencyPairNonce::new(0),
+                        id: next_id,
+                    },
+                )
+                .map_err(|e| report_chain(&e))?;
+            delta
+                .put_next_currency_pair_id(next_id.increment().ok_or("id overflow")?)
+                .map_err(|e| report_chain(&e))?;
+            delta
+                .put_num_currency_pairs(count + 1)
+                .map_err(|e| report_chain(&e))?;
+            chain
+                .app
+                .apply_and_commit(delta, chain.storage.clone())
+                .await;
+        }
+        self.emit("oraclepair ok");
+        Ok(())
+    }
+
+    fn op_ec(&mut self, args: &[&str]) -> PResult<()> {
+        let [name, rest @ ..] = args else {
+            return Err("usage: ec <name> round=<r> votes=...".to_string());
+        };
+        let kv = KeyValues::parse("ec", rest)?;
+        let round: u16 = kv.num("round")?;
+        let names = &self.replicas[0].names;
+        let mut votes = Vec::new();
+        let spec = kv.req("votes")?;
+        if spec != "-" {
+            for vote in spec.split('/') {
+                let fields: Vec<&str> = vote.split(':').collect();
+                if fields.len() < 3 || fields.len() > 4 {
+                    return Err(format!("bad vote `{vote}`"));
+                }
+                let account = names.account_index(fields[0])?;
+                let flag = match fields[1] {
+                    "c" => 'c',
+                    "n" => 'n',
+                    "a" => 'a',
+                    other => return Err(format!("bad flag `{other}`")),
+                };
+                let mut prices = Vec::new();
+                if fields[2] != "-" {
+                    for item in fields[2].split(',') {
+                        let (id, price) = item
+                            .split_once('=')
+                            .ok_or_else(|| format!("bad price `{item}`"))?;
+                        prices.push((
+                            id.parse().map_err(|_| format!("bad id `{id}`"))?,
+                            price.parse().map_err(|_| format!("bad price `{price}`"))?,
+                        ));
+                    }
+                }
+                let sig = fields.get(3).copied().unwrap_or("ok");
+                if !matches!(sig, "ok" | "bad" | "none") {
+                    return Err(format!("bad sig `{sig}`"));
+                }
+                votes.push(VoteSpec {
+                    account,
+                    flag,
+                    prices,
+                    sig: sig.to_string(),
+                });
+            }
+        }
+        let count = votes.len();
+        self.ecs.insert(
+            (*name).to_string(),
+            EcSpec {
+                round,
+                votes,
+            },
+        );
+        self.emit(format!("ec {name} votes={count}"));
+        Ok(())
+    }
+
+    /// The extended commit for a block at `height` (i.e. the votes on `height - 1`), with the
+    /// validators' powers as stored on replica `index`.
+    async fn materialize_ec(
+        &self,
+        index: usize,
+        name: Option<&str>,
+        round: u16,
+        height: u64,
+    ) -> PResult<ExtendedCommitInfo> {
+        let Some(name) = name else {
+            return Ok(ExtendedCommitInfo {
+                round: round.into(),
+                votes: vec![],
+            });
+        };
+        let spec = self
+            .ecs
+            .get(name)
+            .ok_or_else(|| format!("unknown ec `{name}`"))?;
+        let replica = &self.replicas[index];
+        let chain = replica.chain.as_ref().ok_or("no chain")?;
+        let snapshot = chain.storage.latest_snapshot();
+        let mut votes = Vec::new();
+        for vote in &spec.votes {
+            let key = &replica.names.keys[vote.account];
+            let address = *key.verification_key().address_bytes();
+            let power = match snapshot.get_validator(&address).await {
+                Ok(Some(validator)) => u64::from(validator.power),
+                _ => 1,
+            };
+            let (sig_info, extension, signature) = match vote.flag {
+                'c' => {
+                    let extension: Vec<u8> = if vote.prices.is_empty() {
+                        vec![]
+                    } else {
+                        RawOracleVoteExtension {
+                            prices: vote
+                                .prices
+                                .iter()
+                                .map(|(id, price)| (*id, price.to_be_bytes().to_vec().into()))
+                                .collect(),
+                        }
+                        .encode_to_vec()
+                    };
+                    let message = CanonicalVoteExtension {
+                        extension: extension.clone(),
+                        height: i64::try_from(height.saturating_sub(1)).unwrap(),
+                        round: if vote.sig == "bad" {
+                            i64::from(spec.round) + 1
+                        } else {
+                            i64::from(spec.round)
+                        },
+                        chain_id: CHAIN_ID.to_string(),
+                    }
+                    .encode_length_delimited_to_vec();
+                    let signature = if vote.sig == "none" {
+                        None
+                    } else {
+                        Some(
+                            key.sign(&message)
+                                .to_bytes()
+                                .to_vec()
+                                .try_into()
+                                .map_err(|_| "bad signature".to_string())?,
+                        )
+                    };
+                    (
+                        BlockSignatureInfo::Flag(BlockIdFlag::Commit),
+                        extension,
+                        signature,
+                    )
+                }
+                'n' => (BlockSignatureInfo::Flag(BlockIdFlag::Nil), vec![], None),
+                _ => (BlockSignatureInfo::Flag(BlockIdFlag::Absent), vec![], None),
+            };
+            votes.push(ExtendedVoteInfo {
+                validator: Validator {
+                    address,
+                    power: power.try_into().map_err(|_| "bad power".to_string())?,
+                },
+                sig_info,
+                vote_extension: extension.into(),
+                extension_signature: signature,
+            });
+        }
+        Ok(ExtendedCommitInfo {
+            round: spec.round.into(),
+            votes,
+        })
+    }
+
+    /// Whether vote extensions are enabled for a block at `height` on top of the committed state of
+    /// replica `index` (same rule as `App::vote_extensions_enabled`).
+    async fn ve_enabled(&self, index: usize, height: u64) -> bool {
+        let Some(chain) = self.replicas[index].chain.as_ref() else {
+            return false;
+        };
+        let enable_height = chain
+            .storage
+            .latest_snapshot()
+            .get_consensus_params()
+            .await
+            .ok()
+            .flatten()
+            .and_then(|params| params.abci.vote_extensions_enable_height)
+            .map_or(0, |height| height.value());
+        enable_height != 0 && height > enable_height
+    }
+
+    /// Whether `ProposalHandler::prepare_proposal` accepts the extended commit on the committed
+    /// state of replica `index` (vote-extension validation is property C15's subject; its verdict
+    /// is an input of the C05 model).
+    async fn ec_ok(&self, index: usize, height: u64, extended_commit: &ExtendedCommitInfo) -> bool {
+        let Some(chain) = self.replicas[index].chain.as_ref() else {
+            return false;
+        };
+        ProposalHandler::prepare_proposal(
+            &chain.storage.latest_snapshot(),
+            height,
+            extended_commit.clone(),
+        )
+        .await
+        .is_ok()
+    }
+
+    async fn next_height(&self, index: usize) -> PResult<u64> {
+        let chain = self.replicas[index].chain.as_ref().ok_or("no chain")?;
+        Ok(chain
+            .storage
+            .latest_snapshot()
+            .get_block_height()
+            .await
+            .unwrap_or_default()
+            + 1)
+    }
+
+    fn block_meta(&self, index: usize, kv: &KeyValues<'_>, height: u64) -> PResult<BlockMeta> {
+        let names = &self.replicas[index].names;
+        let proposer_index = names.account_index(kv.opt("prop").unwrap_or("a0"))?;
+        let proposer: tendermint::account::Id = names.keys[proposer_index]
+            .address_bytes()
+            .to_vec()
+            .try_into()
+            .map_err(|_| "bad proposer".to_string())?;
+        let round: u16 = match kv.opt("round") {
+            Some(value) => value.parse().map_err(|_| "bad round".to_string())?,
+            None => 0,
+        };
+        let time_offset: u64 = match kv.opt("tplus") {
+            Some(value) => value.parse().map_err(|_| "bad tplus".to_string())?,
+            None => 0,
+        };
+        let time = block_time(height)
+            .checked_add(Duration::from_millis(time_offset))
+            .ok_or("bad time")?;
+        Ok(BlockMeta {
+            time,
+            proposer,
+            round,
+        })
+    }
+
+    fn tx_list<'a>(&self, index: usize, kv: &KeyValues<'a>) -> PResult<Vec<(&'a str, Bytes)>> {
+        let list = kv.req("txs")?;
+        let mut txs = Vec::new();
+        if list != "-" {
+            for id in list.split(',').filter(|id| !id.is_empty()) {
+                let bytes = self.replicas[index]
+                    .txs
+                    .get(id)
+                    .ok_or_else(|| format!("unknown tx `{id}`"))?;
+                txs.push((id, bytes.clone()));
+            }
+        }
+        Ok(txs)
+    }
+
+    fn show_user_txs(&self, index: usize, data: &[Bytes]) -> String {
+        let names: Vec<String> = data
+            .iter()
+            .filter_map(|bytes| {
+                let hash: [u8; 32] = Sha256::digest(bytes).into();
+                self.replicas[index].tx_names.get(&hash).cloned()
+            })
+            .collect();
+        if names.is_empty() {
+            "-".to_string()
+        } else {
+            names.join(",")
+        }
+    }
+
+    /// Defines `name` or compares with the existing definition.
+    fn define_or_compare(&mut self, name: &str, block: Block) -> &'static str {
+        match self.blocks.get(name) {
+            None => {
+                self.blocks.insert(name.to_string(), block);
+                "def"
+            }
+            Some(existing) => {
+                if existing.hash == block.hash {
+                    "1"
+                } else {
+                    "0"
+                }
+            }
+        }
+    }
+
+    /// CheckTx as the mempool service does it: construct against the latest committed state, then
+    /// insert into the app-side mempool.  Returns the ids which were not admitted.
+    async fn admit(&mut self, index: usize, txs: &[(&str, Bytes)]) -> PResult<Vec<String>> {
+        let chain = self.replicas[index].chain.as_mut().ok_or("no chain")?;
+        let mempool = chain.app.mempool();
+        let snapshot = chain.storage.latest_snapshot();
+        let mut not_checked = Vec::new();
+        let mut inserted = Vec::new();
+        for (id, bytes) in txs {
+            match CheckedTransaction::new(bytes.clone(), &snapshot).await {
+                Ok(tx) => {
+                    let tx = Arc::new(tx);
+                    let nonce = snapshot
+                        .get_account_nonce(tx.verification_key().address_bytes())
+                        .await
+                        .map_err(|e| report_chain(&e))?;
+                    match mempool
+                        .insert(tx.clone(), nonce, &HashMap::new(), HashMap::new())
+                        .await
+                    {
+                        Ok(_) => inserted.push(tx),
+                        Err(error) => {
+                            if debug_enabled() {
+                                eprintln!("[verif_c05] mempool insert of {id}: {error}");
+                            }
+                            not_checked.push((*id).to_string());
+                        }
+                    }
+                }
+                Err(error) => {
+                    if debug_enabled() {
+                        eprintln!("[verif_c05] checktx of {id}: {}", error_chain(&error));
+                    }
+                    not_checked.push((*id).to_string());
+                }
+            }
+        }
+        self.mempools[index].extend(inserted);
+        Ok(not_checked)
+    }
+
+    /// `mp <i> txs=<ids>`: CheckTx of the given txs on replica i now; they stay in its mempool.
+    async fn op_mp(&mut self, args: &[&str]) -> PResult<()> {
+        let [inst, rest @ ..] = args else {
+            return Err("usage: mp <i> txs=...".to_string());
+        };
+        let index = self.replica(inst)?;
+        let kv = KeyValues::parse("mp", rest)?;
+        let txs = self.tx_list(index, &kv)?;
+        let not_checked = self.admit(index, &txs).await?;
+        let not_checked = if not_checked.is_empty() {
+            "-".to_string()
+        } else {
+            not_checked.join(",")
+        };
+        self.emit(format!("mp {inst} ok nocheck={not_checked}"));
+        Ok(())
+    }
+
+    async fn op_prep(&mut self, args: &[&str]) -> PResult<()> {
+        let [inst, name, rest @ ..] = args else {
+            return Err("usage: prep <i> <blk> ... txs=...".to_string());
+        };
+        let index = self.replica(inst)?;
+        let kv = KeyValues::parse("prep", rest)?;
+        let height = self.next_height(index).await?;
+        let meta = self.block_meta(index, &kv, height)?;
+        let txs = self.tx_list(index, &kv)?;
+        let max_tx_bytes: i64 = match kv.opt("maxb") {
+            Some(value) => value.parse().map_err(|_| "bad maxb".to_string())?,
+            None => 1_000_000,
+        };
+        let extended_commit = self
+            .materialize_ec(index, kv.opt_some("ec"), meta.round, height)
+            .await?;
+
+        // mempool := exactly the given txs which pass the CheckTx-style construction against the
+        // latest committed state.
+        // With `keep=1` the txs already in the mempool (admitted at earlier heights, possibly stale
+        // by now) stay, the given ones are added.
+        let keep = kv.opt("keep") == Some("1");
+        let old = std::mem::take(&mut self.mempools[index]);
+        let chain = self.replicas[index].chain.as_mut().ok_or("no chain")?;
+        let mempool = chain.app.mempool();
+        let mut inserted = Vec::new();
+        if keep {
+            inserted = old;
+        } else {
+            for tx in old {
+                mempool
+                    .remove_tx_invalid(tx, RemovalReason::Expired)
+                    .await;
+            }
+        }
+        self.mempools[index] = inserted;
+        let not_checked = self.admit(index, &txs).await?;
+        let queue = mempool.builder_queue().await;
+        let queue_bytes: Vec<Bytes> = queue.iter().map(|tx| tx.encoded_bytes().clone()).collect();
+        let queue = self.show_user_txs(index, &queue_bytes);
+        let ve = self.ve_enabled(index, height).await;
+        let ecok = ve && self.ec_ok(index, height, &extended_commit).await;
+
+        let request = abci::request::PrepareProposal {
+            height: Height::try_from(height).unwrap(),
+            time: meta.time,
+            next_validators_hash: Hash::default(),
+            proposer_address: meta.proposer,
+            txs: vec![],
+            max_tx_bytes,
+            local_last_commit: Some(extended_commit.clone()),
+            misbehavior: vec![],
+        };
+        let chain = self.replicas[index].chain.as_mut().ok_or("no chain")?;
+        let result = chain
+            .app
+            .prepare_proposal(request, chain.storage.clone())
+            .await;
+        let not_checked = if not_checked.is_empty() {
+            "-".to_string()
+        } else {
+            not_checked.join(",")
+        };
+        match result {
+            Ok(response) => {
+                let last_commit = project(&extended_commit);
+                let hash = block_hash_of(
+                    height,
+                    meta.time,
+                    &meta.proposer,
+                    &last_commit,
+                    &response.txs,
+                );
+                let items = response.txs.len();
+                let user = self.show_user_txs(index, &response.txs);
+                let block = Block {
+                    height,
+                    time: meta.time,
+                    proposer: meta.proposer,
+                    txs: response.txs,
+                    last_commit,
+                    hash,
+                };
+                let matched = self.define_or_compare(name, block);
+                self.emit(format!(
+                    "prep {inst} {name} ok h={height} items={items} user={user} match={matched} \
+                     nocheck={not_checked} queue={queue} ve={} ecok={}",
+                    u8::from(ve),
+                    u8::from(ecok),
+                ));
+            }
+            Err(error) => {
+                let class = call_class("prepare_proposal", &report_chain(&error));
+                self.emit(format!(
+                    "prep {inst} {name} err={class} h={height} nocheck={not_checked} queue={queue}"
+                ));
+            }
+        }
+        Ok(())
+    }
+
+    async fn op_hand(&mut self, args: &[&str]) -> PResult<()> {
+        let [inst, name, rest @ ..] = args else {
+            return Err("usage: hand <i> <blk> ... txs=...".to_string());
+        };
+        let index = self.replica(inst)?;
+        let kv = KeyValues::parse("hand", rest)?;
+        let height = self.next_height(index).await?;
+        let meta = self.block_meta(index, &kv, height)?;
+        let txs = self.tx_list(index, &kv)?;
+        let extended_commit = self
+            .materialize_ec(index, kv.opt_some("ec"), meta.round, height)
+            .await?;
+        let raw_mode = match kv.opt("ecmode").unwrap_or("honest") {
+            "honest" => false,
+            "raw" => true,
+            other => return Err(format!("bad ecmode `{other}`")),
+        };
+        let bad = kv.opt("bad").unwrap_or("-");
+        if !matches!(bad, "-" | "commit" | "item") {
+            return Err(format!("bad `bad={bad}`"));
+        }
+
+        let replica = &mut self.replicas[index];
+        let names = &replica.names;
+        let chain = replica.chain.as_mut().ok_or("no chain")?;
+        chain.reset_round();
+        let tm_height = Height::try_from(height).unwrap();
+        let mut checked = Vec::new();
+        for (_, bytes) in &txs {
+            if let Ok(tx) = CheckedTransaction::new(bytes.clone(), chain.app.state()).await {
+                checked.push(Arc::new(tx));
+            }
+        }
+        let (errors, deposits) = chain.dry_run(names, height, &checked).await;
+        let committed: Vec<Arc<CheckedTransaction>> = checked
+            .iter()
+            .zip(&errors)
+            .filter(|(_, error)| error.is_none())
+            .map(|(tx, _)| tx.clone())
+            .collect();
+        let tx_bytes = txs.iter().map(|(_, bytes)| bytes.clone());
+        let mut ve = false;
+        let mut ecok = false;
+        let mut data: Vec<Bytes> = if chain.app.uses_data_item_enum(tm_height) {
+            let upgrade_change_hashes = chain
+                .app
+                .upgrades_handler
+                .upgrades()
+                .upgrade_activating_at_height(height)
+                .map(|upgrade| {
+                    DataItem::UpgradeChangeHashes(
+                        upgrade.changes().map(Change::calculate_hash).collect(),
+                    )
+                    .encode()
+                });
+            let with_extended_commit_info = chain
+                .app
+                .vote_extensions_enabled(tm_height)
+                .await
+                .unwrap_or(false);
+            ve = with_extended_commit_info;
+            let extended_commit_item = if with_extended_commit_info {
+                let with_mapping = if raw_mode {
+                    let mut mapping = indexmap::IndexMap::new();
+                    let market_map = chain
+                        .app
+                        .state()
+                        .get_market_map()
+                        .await
+                        .map_err(|e| report_chain(&e))?;
+                    let mut stream =
+                        std::pin::pin!(chain.app.state().currency_pairs_with_ids());
+                    let mut entries = Vec::new();
+                    while let Some(entry) = stream.next().await {
+                        let entry = entry.map_err(|e| report_chain(&e))?;
+                        entries.push((entry.id, entry.currency_pair));
+                    }
+                    entries.sort_by_key(|(id, _)| *id);
+                    for (id, pair) in entries {
+                        let decimals = market_map
+                            .as_ref()
+                            .and_then(|map| map.markets.get(&pair.to_string()))
+                            .map_or(0, |market| market.ticker.decimals);
+                        mapping.insert(
+                            astria_core::oracles::price_feed::types::v2::CurrencyPairId::new(id),
+                            astria_core::protocol::price_feed::v1::CurrencyPairInfo {
+                                currency_pair: pair,
+                                decimals,
+                            },
+                        );
+                    }
+                    let with_mapping = ExtendedCommitInfoWithCurrencyPairMapping::new(
+                        extended_commit.clone(),
+                        mapping,
+                    );
+                    ecok = ProposalHandler::validate_proposal(
+                        chain.app.state(),
+                        height,
+                        &project(&extended_commit),
+                        &with_mapping,
+                    )
+                    .await
+                    .is_ok();
+                    with_mapping
+                } else {
+                    let round = extended_commit.round;
+                    match ProposalHandler::prepare_proposal(
+                        chain.app.state(),
+                        height,
+                        extended_commit.clone(),
+                    )
+                    .await
+                    {
+                        Ok(with_mapping) => {
+                            ecok = true;
+                            with_mapping
+                        }
+                        Err(_) => ExtendedCommitInfoWithCurrencyPairMapping::empty(round),
+                    }
+                };
+                Some(
+                    DataItem::ExtendedCommitInfo(with_mapping.into_raw().encode_to_vec().into())
+                        .encode(),
+                )
+            } else {
+                None
+            };
+            generate_rollup_datas_commitment::<true>(&committed, deposits)
+                .into_iter()
+                .chain(upgrade_change_hashes)
+                .chain(extended_commit_item)
+                .chain(tx_bytes)
+                .collect()
+        } else {
+            generate_rollup_datas_commitment::<false>(&committed, deposits)
+                .into_iter()
+                .chain(tx_bytes)
+                .collect()
+        };
+        chain.reset_round();
+        match bad {
+            "commit" => {
+                if let Some(first) = data.first_mut() {
+                    let mut bytes = first.to_vec();
+                    if let Some(last) = bytes.last_mut() {
+                        *last ^= 0x01;
+                    }
+                    *first = bytes.into();
+                }
+            }
+            "item" => {
+                if !data.is_empty() {
+                    data.remove(0);
+                }
+            }
+            _ => {}
+        }
+        let last_commit = project(&extended_commit);
+        let hash = block_hash_of(height, meta.time, &meta.proposer, &last_commit, &data);
+        let items = data.len();
+        let user = self.show_user_txs(index, &data);
+        let block = Block {
+            height,
+            time: meta.time,
+            proposer: meta.proposer,
+            txs: data,
+            last_commit,
+            hash,
+        };
+        let matched = self.define_or_compare(name, block);
+        self.emit(format!(
+            "hand {inst} {name} ok h={height} items={items} user={user} match={matched} ve={} ecok={}",
+            u8::from(ve),
+            u8::from(ecok),
+        ));
+        Ok(())
+    }
+
+    fn block(&self, name: &str) -> PResult<Block> {
+        self.blocks
+            .get(name)
+            .cloned()
+            .ok_or_else(|| format!("unknown block `{name}`"))
+    }
+
+    async fn op_proc(&mut self, args: &[&str]) -> PResult<()> {
+        let [inst, name] = args else {
+            return Err("usage: proc <i> <blk>".to_string());
+        };
+        let index = self.replica(inst)?;
+        let block = self.block(name)?;
+        let request = abci::request::ProcessProposal {
+            hash: block.hash,
+            height: Height::try_from(block.height).unwrap(),
+            time: block.time,
+            next_validators_hash: Hash::default(),
+            proposer_address: block.proposer,
+            txs: block.txs.clone(),
+            proposed_last_commit: Some(block.last_commit.clone()),
+            misbehavior: vec![],
+        };
+        let chain = self.replicas[index].chain.as_mut().ok_or("no chain")?;
+        match chain
+            .app
+            .process_proposal(request, chain.storage.clone())
+            .await
+        {
+            Ok(()) => self.emit(format!("proc {inst} {name} ok")),
+            Err(error) => {
+                let class = call_class("process_proposal", &report_chain(&error));
+                self.emit(format!("proc {inst} {name} err={class}"));
+            }
+        }
+        Ok(())
+    }
+
+    async fn op_fin(&mut self, args: &[&str]) -> PResult<()> {
+        let [inst, name] = args else {
+            return Err("usage: fin <i> <blk>".to_string());
+        };
+        let index = self.replica(inst)?;
+        let block = self.block(name)?;
+        let request = abci::request::FinalizeBlock {
+            hash: block.hash,
+            height: Height::try_from(block.height).unwrap(),
+            time: block.time,
+            next_validators_hash: Hash::default(),
+            proposer_address: block.proposer,
+            txs: block.txs.clone(),
+            decided_last_commit: block.last_commit.clone(),
+            misbehavior: vec![],
+        };
+        let replica = &mut self.replicas[index];
+        let chain = replica.chain.as_mut().ok_or("no chain")?;
+        match chain
+            .app
+            .finalize_block(request, chain.storage.clone())
+            .await
+        {
+            Ok(response) => {
+                let user_count = block
+                    .txs
+                    .iter()
+                    .filter(|bytes| {
+                        let hash: [u8; 32] = Sha256::digest(bytes).into();
+                        replica.tx_names.contains_key(&hash)
+                    })
+                    .count();
+                let injected = block.txs.len() - user_count;
+                let codes: Vec<String> = response
+                    .tx_results
+                    .iter()
+                    .skip(injected.min(response.tx_results.len()))
+                    .map(|result| result.code.value().to_string())
+                    .collect();
+                // The deterministic part of the results (what CometBFT hashes into
+                // `LastResultsHash`): code, data, gas_wanted, gas_used of every result.
+                let mut hasher = Sha256::new();
+                for result in &response.tx_results {
+                    hasher.update(result.code.value().to_le_bytes());
+                    hasher.update((result.data.len() as u64).to_le_bytes());
+                    hasher.update(&result.data);
+                    hasher.update(result.gas_wanted.to_le_bytes());
+                    hasher.update(result.gas_used.to_le_bytes());
+                }
+                let results_hash: [u8; 32] = hasher.finalize().into();
+                let consensus_params = match &response.consensus_param_updates {
+                    None => "-".to_string(),
+                    Some(params) => format!(
+                        "app={}/ve={}/maxbytes={}/maxgas={}/evage={}",
+                        params.version.as_ref().map_or(0, |version| version.app),
+                        params
+                            .abci
+                            .vote_extensions_enable_height
+                            .map_or(0, |height| height.value()),
+                        params.block.max_bytes,
+                        params.block.max_gas,
+                        params.evidence.max_age_num_blocks,
+                    ),
+                };
+                let line = format!(
+                    "fin {inst} {name} ok h={} apphash={} nres={} codes={} rh={} vupd={} cparams={}",
+                    block.height,
+                    hex16(response.app_hash.as_bytes()),
+                    response.tx_results.len(),
+                    if codes.is_empty() {
+                        "-".to_string()
+                    } else {
+                        codes.join(",")
+                    },
+                    &hex::encode(results_hash)[..8],
+                    show_validator_updates(&replica.names, &response.validator_updates),
+                    consensus_params,
+                );
+                self.emit(line);
+            }
+            Err(error) => {
+                let class = call_class("finalize_block", &report_chain(&error));
+                self.emit(format!("fin {inst} {name} err={class}"));
+            }
+        }
+        Ok(())
+    }
+
+    async fn op_commit(&mut self, args: &[&str]) -> PResult<()> {
+        let [inst] = args else {
+            return Err("usage: commit <i>".to_string());
+        };
+        let index = self.replica(inst)?;
+        let chain = self.replicas[index].chain.as_mut().ok_or("no chain")?;
+        if chain.app.write_batch.is_none() {
+            // `App::commit` would panic (`expect`); CometBFT never issues Commit without a
+            // successful FinalizeBlock.
+            self.emit(format!("commit {inst} err=nofinalize"));
+            return Ok(());
+        }
+        match chain.app.commit(chain.storage.clone()).await {
+            Ok(_) => {
+                let height = chain.stored_height().await;
+                self.emit(format!("commit {inst} ok h={height}"));
+            }
+            Err(error) => {
+                let class = call_class("commit", &report_chain(&error));
+                self.emit(format!("commit {inst} err={class}"));
+            }
+        }
+        Ok(())
+    }
+
+    async fn op_restart(&mut self, args: &[&str]) -> PResult<()> {
+        let [inst] = args else {
+            return Err("usage: restart <i>".to_string());
+        };
+        let index = self.replica(inst)?;
+        let chain = self.replicas[index].chain.as_mut().ok_or("no chain")?;
+        let upgrades = chain.app.upgrades_handler.upgrades().clone();
+        let metrics = chain.app.metrics;
+        let mempool = Mempool::new(metrics, 100, 100);
+        let app = App::new(
+            chain.storage.latest_snapshot(),
+            mempool,
+            upgrades.into(),
+            VeHandler::new(None),
+            metrics,
+        )
+        .await
+        .map_err(|e| report_chain(&e))?;
+        chain.app = app;
+        chain.manual = None;
+        self.mempools[index].clear();
+        self.emit(format!("restart {inst} ok"));
+        Ok(())
+    }
+
+    async fn op_idump(&mut self, args: &[&str]) -> PResult<()> {
+        let [inst] = args else {
+            return Err("usage: idump <i>".to_string());
+        };
+        let index = self.replica(inst)?;
+        let replica = &mut self.replicas[index];
+        replica.out.clear();
+        replica.op_dump().await?;
+        let dump = std::mem::take(&mut replica.out);
+        let chain = replica.chain.as_ref().ok_or("no chain")?;
+        let state = chain.app.state();
+        let mut oracle = Vec::new();
+        {
+            let mut stream = std::pin::pin!(state.currency_pairs_with_ids());
+            while let Some(entry) = stream.next().await {
+                let entry = entry.map_err(|e| report_chain(&e))?;
+                oracle.push((entry.currency_pair.to_string(), entry.id));
+            }
+        }
+        oracle.sort();
+        let mut lines = String::new();
+        for (pair, id) in oracle {
+            let parsed: CurrencyPair = pair.parse().map_err(|_| "bad pair".to_string())?;
+            match state
+                .get_currency_pair_state(&parsed)
+                .await
+                .map_err(|e| report_chain(&e))?
+            {
+                Some(pair_state) => {
+                    let (price, price_height) = match &pair_state.price {
+                        Some(quote) => (
+                            quote.price.get().to_string(),
+                            quote.block_height.to_string(),
+                        ),
+                        None => ("-".to_string(), "-".to_string()),
+                    };
+                    lines.push_str(&format!(
+                        "oracle {pair} id={} nonce={} price={price} ph={price_height}\n",
+                        pair_state.id.get(),
+                        pair_state.nonce.get(),
+                    ));
+                }
+                None => lines.push_str(&format!("oracle {pair} id={id} nostate\n")),
+            }
+        }
+        let count = state
+            .get_num_currency_pairs()
+            .await
+            .map_err(|e| report_chain(&e))?;
+        let next_id = state
+            .get_next_currency_pair_id()
+            .await
+            .map_err(|e| report_chain(&e))?;
+        lines.push_str(&format!("oraclemeta num={count} next={}\n", next_id.get()));
+        self.emit(format!("idump {inst} begin"));
+        self.out.push_str(&dump);
+        self.out.push_str(&lines);
+        self.emit(format!("idump {inst} end"));
+        Ok(())
+    }
+}
+
+#[tokio::test]
+async fn drive() {
+    let Ok(input_path) = std::env::var("VERIF_IN") else {
+        return;
+    };
+    let script = std::fs::read_to_string(&input_path).expect("VERIF_IN should be readable");
+    if debug_enabled() {
+        std::panic::set_hook(Box::new(|info| eprintln!("[verif_c05] panic: {info}")));
+    } else {
+        std::panic::set_hook(Box::new(|_| {}));
+    }
+    let mut driver = Driver::new();
+    for line in script.lines() {
+        driver.run_line(line).await;
+    }
+    // Drop the chains (and hence the apps) before restoring the default hook.
+    driver.replicas.clear();
+    let _ = std::panic::take_hook();
+    match std::env::var("VERIF_OUT") {
+        Ok(output_path) => {
+            std::fs::write(&output_path, &driver.out).expect("VERIF_OUT should be writable");
+        }
+        Err(_) => print!("{}", driver.out),
+    }
+}
